@@ -147,9 +147,9 @@ func init() {
 		Real: "real: all of kvql from /repo's working tree; simulated: storage engine with read trace, caller",
 		NCases: func(tier string) int {
 			if tier == "thorough" {
-				return len(c18Enum()) * 6
+				return len(c18Enum()) * 60
 			}
-			return 24000
+			return 90000
 		},
 		Gen:        genC18,
 		Run:        runC18,
@@ -158,7 +158,7 @@ func init() {
 		Finish: func(st *Stats, cov map[string]any, tier string) string {
 			if tier == "thorough" {
 				cov["shape_literal_combinations_enumerated"] = len(c18Enum())
-				cov["explanation_exhaustive"] = "all single atoms over all 39 literals (second literal of between/in over all 39 as well for single atoms), all ordered pairs of atoms over the 12 literals of length <= 2; each with 6 (store, batch, mode, opaque-position) draws"
+				cov["explanation_exhaustive"] = "all single atoms over all 39 literals (second literal of between/in over all 39 as well for single atoms), all ordered pairs of atoms over the 12 literals of length <= 2; each with 60 (store, batch, mode, opaque-position) draws"
 			}
 			return ""
 		},
@@ -280,7 +280,7 @@ func genC18(seed uint64, i int, tier string) *Scenario {
 	var pc PinCase
 	if tier == "thorough" {
 		e := c18Enum()
-		pc = e[(i/6)%len(e)]
+		pc = e[(i/60)%len(e)]
 	} else {
 		lits := c18Lits(3)
 		mkAtom := func() PinAtom {
